@@ -3,7 +3,7 @@
    {"op":"world","target":T,"procs":[{pid,ppid,ctime,long,guess,tids:[[t,stale]],fds:[[fd,kind]],stale}]}
    {"op":"run","method":m,"attrs":[..],"plan":{"switch":[[k,"zombie"|"gone"]],"deny":[[k,"EACCES"|"EPERM"]]},
     "impl":{"kind":"ok","shape":..}|{"kind":"exc","exc":cls,"pid":p|null}}
-     → {"model":outcome,"trace":[..],"spec":{"ok":b,"gone_nsp":b|null}}
+     → {"model":outcome,"trace":[..],"spec":{"ok":b,"ok_any":b,"gone_nsp":b|null}}
    `spec` is Spec.OK / Spec.IsNSP decided on the IMPLEMENTATION's outcome. -/
 import PsutilModel.Base.Proto
 import PsutilModel.Model.C03Gen
@@ -177,6 +177,9 @@ def handle (w : Option World) (j : Json) : R (Option World × Json) := do
       let specOk : Bool := match impl with
         | none => false
         | some o => decide (Spec.OK w.target o)
+      let specAny : Bool := match impl with
+        | none => false
+        | some o => decide (Spec.OKany o)
       let goneNsp : Json :=
         if goneStart && !(Spec.goneExempt.contains m) && m != "as_dict" && m != "process_iter" then
           match impl with
@@ -185,6 +188,6 @@ def handle (w : Option World) (j : Json) : R (Option World × Json) := do
         else Json.null
       return (some w, jObj [("model", jOutcome (out.map canonVal)),
                             ("trace", jList Json.str (st.trace.reverse.map accStr)),
-                            ("spec", jObj [("ok", Json.bool specOk), ("gone_nsp", goneNsp)])])
+                            ("spec", jObj [("ok", Json.bool specOk), ("ok_any", Json.bool specAny), ("gone_nsp", goneNsp)])])
 
 def main : IO Unit := Proto.run (none : Option World) (total handle)
